@@ -48,7 +48,7 @@ func (s *faultSink) Write(b []byte) (int, error) {
 		s.budget = -1
 	}
 	s.fails++
-	return acc, &injErr{s.tag}
+	return acc, injected(s.tag)
 }
 
 func parseSinkSpec(spec string) *faultSink {
@@ -551,7 +551,11 @@ func genXW(r *Rand, tier string, emit func(string)) {
 			if r.Intn(3) == 0 {
 				tail = []string{"F:0", "W:" + hx(r.Bytes(9)), "C", "F:2", "C"}
 			}
-			emit(fmtXwLine(cfg, fmt.Sprintf("%d:%s:%d:%d", k, mode, fv, 3+r.Intn(5)), ops, tail))
+			tag := 3 + r.Intn(5)
+			if r.Intn(5) == 0 {
+				tag = 100 // a Closed-coded error, which xflate also uses as its own closed marker
+			}
+			emit(fmtXwLine(cfg, fmt.Sprintf("%d:%s:%d:%d", k, mode, fv, tag), ops, tail))
 		}
 	}
 }
